@@ -188,6 +188,32 @@ func (ch c11) Run(c *core.Ctx) {
 		conn.CloseWrite()
 		conn.WaitClosed()
 	}
+	// the rule speaks of certificates being configured when the SSLRequest arrives: a configuration that
+	// receives its key pair after it was handed to the option (or loses it) is judged by its state then
+	for k := 0; k < 2 && c.Begin(910000+k); k++ {
+		cfg := &tls.Config{}
+		want := "S"
+		if k == 1 {
+			cfg, want = hs.ServerTLS(), "N"
+		}
+		e3 := hs.Start(hs.Parse, wire.TLSConfig(cfg))
+		if k == 0 {
+			cfg.Certificates = hs.ServerTLS().Certificates
+		} else {
+			cfg.Certificates = nil
+		}
+		conn := e3.Dial(&hs.Sess{})
+		conn.Send(pg.SSLRequest())
+		conn.Quiesce()
+		if got := string(conn.Out()); got != want {
+			c.Violate("ssl-reply", "the answer to SSLRequest does not follow the certificates configured when it arrives (changed after the option was applied)", fmt.Sprintf("got %q want %q", trim(got, 40), want), nil)
+		}
+		c.Count("certificates_changed_after_option", 1)
+		c.Eval("certificates changed after option "+want, true)
+		conn.CloseWrite()
+		conn.WaitClosed()
+		e3.Stop()
+	}
 	for i := 0; i < n; i++ {
 		if !c.Begin(i) || c.NViol() >= 10 {
 			continue
